@@ -4,6 +4,7 @@ package main
 
 import (
 	"fmt"
+	"os"
 	"strings"
 	"go/token"
 	"go/types"
@@ -77,6 +78,11 @@ func (fr *frame) get(key ssa.Value) Value {
 	case *ssa.Const:
 		return fr.e.constValue(key)
 	case *ssa.Global:
+		if fr.e.poisoned != nil && fr.e.poisoned[key] && !fr.e.inInit {
+			// the variable gets its value in a package initialiser the engine does
+			// not interpret: whatever is computed from its zero value would be wrong
+			fr.e.unsupported("use of %s, which is set by the initialiser of %s (not interpreted)", key.Name(), key.Pkg.Pkg.Path())
+		}
 		if r, ok := fr.e.globals[key]; ok {
 			return r
 		}
@@ -198,6 +204,10 @@ func (e *Engine) call(caller *frame, pos token.Pos, fn Value, args []Value) Valu
 	panic(fmt.Sprintf("cannot call %T", fn))
 }
 
+// GOSYM_DUMPFN=<substring>: print the SSA of matching functions when first called (debugging aid)
+var dumpFn = os.Getenv("GOSYM_DUMPFN")
+var dumped = map[*ssa.Function]bool{}
+
 func (e *Engine) callSSA(caller *frame, pos token.Pos, fn *ssa.Function, args []Value, env []Value) Value {
 	var g *G
 	if caller != nil {
@@ -206,6 +216,10 @@ func (e *Engine) callSSA(caller *frame, pos token.Pos, fn *ssa.Function, args []
 		g = e.sched.cur
 	}
 	fr := &frame{e: e, g: g, caller: caller, fn: fn, pos: pos}
+	if dumpFn != "" && strings.Contains(fn.String(), dumpFn) && !dumped[fn] {
+		dumped[fn] = true
+		fn.WriteTo(os.Stderr)
+	}
 	if fn.Synthetic == "package initializer" && fn.Pkg != nil && !initAllowed(fn.Pkg.Pkg.Path()) {
 		return nil
 	}
@@ -433,7 +447,22 @@ func (e *Engine) visitInstr(fr *frame, instr ssa.Instruction) continuation {
 		fn, args := e.prepareCall(fr, &instr.Call)
 		e.goStart(fn, args)
 	case *ssa.MakeChan:
-		fr.set(instr, e.makeChan(int(e.concInt(fr.get(instr.Size)))))
+		n := e.concInt(fr.get(instr.Size))
+		if n < 0 {
+			e.goPanicStr("makechan: size out of range")
+		}
+		if n > 1<<24 {
+			// runtime.makechan: a buffer of more than maxAlloc (2^48) bytes panics;
+			// a smaller one the machine cannot provide kills the process
+			esz := (&types.StdSizes{WordSize: 8, MaxAlign: 8}).Sizeof(instr.Type().Underlying().(*types.Chan).Elem())
+			if esz > 0 && n > (1<<48)/esz {
+				e.goPanicStr("makechan: size out of range")
+			}
+			if esz > 0 {
+				panic(pathEnd{"fatal error: runtime: out of memory"})
+			}
+		}
+		fr.set(instr, e.makeChan(int(n)))
 	case *ssa.Alloc:
 		var addr *Value
 		if instr.Heap {
@@ -591,10 +620,34 @@ func (e *Engine) store(addr *Value, v Value) {
 	if addr == nil {
 		e.goPanicStr("runtime error: invalid memory address or nil pointer dereference")
 	}
+	e.raceWrite(addr)
+	e.assign(addr, v)
+}
+
+// assign copies v into *addr.  An aggregate is copied element by element into
+// the aggregate already stored there, so that pointers to its fields taken
+// before the store (go/ssa computes &b.f before it emits *b = T{}) keep
+// pointing into the variable.
+func (e *Engine) assign(addr *Value, v Value) {
+	switch nv := v.(type) {
+	case Struct:
+		if old, ok := (*addr).(Struct); ok && len(old) == len(nv) {
+			for i := range nv {
+				e.assign(&old[i], nv[i])
+			}
+			return
+		}
+	case Array:
+		if old, ok := (*addr).(Array); ok && len(old) == len(nv) {
+			for i := range nv {
+				e.assign(&old[i], nv[i])
+			}
+			return
+		}
+	}
 	if e.journaling {
 		e.journal = append(e.journal, undo{p: addr, old: *addr})
 	}
-	e.raceWrite(addr)
 	*addr = copyVal(v)
 }
 
